@@ -15,6 +15,7 @@ RULE = (
     "ResolveOnTheRun): generated universes (late listings, NaN gaps, zero and negative prices, ties through rounding, declared or undeclared children), a strategy set up through a "
     "Backtest (synthetic row included) and stepped to a generated date, generated prior temp['selected']/temp['stat'], all flag/parameter combinations; temp['selected'] (or "
     "temp['stat']) right after the call is compared with an independent reference computed on the raw arrays (ranked selection by a validity predicate so ties cannot false-alarm). "
+    "SelectActiveRun: real backtests over explicitly declared securities with maturity dates, a date-varying signal, ClosePositionsAfterDates in front and SelectActive in the stack: from its close date on a security is never selected again, whether it was held when it matured or not. "
     "non-trivial = at least one ticker filtered out by the rule under test and one kept. distinct = distinct spec hashes."
 )
 ASSUMPTIONS = [
@@ -489,8 +490,105 @@ def ref_total_return(spec, selected):
     return out
 
 
+# ---- SelectActive inside a run: what it filters on is kept by ClosePositionsAfterDates / RollPositionsAfterDates as the run goes ----------
+@st.composite
+def active_run_spec(draw):
+    """explicitly declared securities with maturity dates, a signal that changes which of them are wanted from date to date (so a security
+    may well be flat when it matures), ClosePositionsAfterDates in front of the stack and SelectActive in it (the fixed-income example's
+    pattern): from its close date on a security is never selected again, held at that moment or not"""
+    import datetime as dt
+
+    ds = draw(gen.dates(5, 12, kinds=("bday", "daily")))
+    n = len(ds)
+    nt = draw(st.integers(2, 5))
+    tickers = gen.TICKERS[:nt]
+    pr = {t: draw(gen.price_path(n, vol=0.02, decimals=4)) for t in tickers}
+    cd = {}
+    for t in tickers:
+        if draw(st.integers(0, 2)) > 0:
+            k = draw(st.integers(1, n - 1))
+            cd[t] = ds[k][:10] if draw(st.booleans()) else (dt.datetime.fromisoformat(ds[k]) - dt.timedelta(days=1)).strftime("%Y-%m-%d")
+    if not cd:
+        cd[tickers[0]] = ds[draw(st.integers(1, n - 1))][:10]
+    sig = {t: [draw(st.booleans()) for _ in range(n)] for t in tickers}
+    names = sorted(cd)
+    spec = {
+        "dates": ds,
+        "prices": pr,
+        "rng_seed": 0,
+        "frames": {"closes": {"kind": "table", "index": names, "cols": {"date": [cd[t] for t in names]}, "date_cols": ["date"]}, "sig": {"kind": "frame", "dtype": "bool", "cols": sig}},
+        "additional": ["closes", "sig"],
+        "integer_positions": draw(st.booleans()),
+        "initial_capital": 1e6,
+        "fee": {"kind": "none"},
+        "close_dates": cd,
+        "signal": sig,
+        "tree": {
+            "name": "root",
+            "kind": "Strategy",
+            "algos": [["ClosePositionsAfterDates", {"frame": "closes"}], ["SelectWhere", {"frame": "sig"}], ["SelectActive", {}], ["Probe", {"key": "c14active"}], ["WeighEqually", {}], ["Rebalance", {}]],
+            # constructed up front, or named by a string and created on first use: the same thing
+            "children": [{"sec": t, "kind": "Security"} for t in tickers] if draw(st.booleans()) else list(tickers),
+        },
+    }
+    return spec
+
+
+def case_active_run(ctx, spec):
+    import contextlib
+    import io
+
+    bt = ctx.bt
+    holder = {}
+    seen = []
+
+    def cb(algo, target):
+        if target is holder.get("root"):
+            seen.append((target.now, list(target.temp.get("selected", [])), {c: ch.position for c, ch in target.children.items()}))
+
+    interp.Probe.registry["c14active"] = cb
+    base = {k: v for k, v in spec.items() if k not in ("close_dates", "signal")}
+    try:
+        b = interp.mk_backtest(bt, base)
+        holder["root"] = b.strategy
+        with contextlib.redirect_stdout(io.StringIO()):
+            try:
+                b.run()
+            except Exception as e:
+                raise Violation("run raised %s: %s" % (type(e).__name__, str(e)[:200]), signature="c14:active-run:raises")
+    finally:
+        interp.Probe.registry.pop("c14active", None)
+    ds = [pd.Timestamp(d) for d in spec["dates"]]
+    cd = {t: pd.Timestamp(d) for t, d in spec["close_dates"].items()}
+    flat_at_maturity = False
+    kept = dropped = 0
+    for now, selected, pos in seen:
+        i = ds.index(now)
+        exp = [t for t in sorted(spec["prices"]) if spec["signal"][t][i] and not (t in cd and cd[t] <= now)]
+        for t in cd:
+            if cd[t] <= now and spec["signal"][t][i]:
+                dropped += 1
+        kept += len(exp)
+        if sorted(selected) != exp:
+            late = [t for t in selected if t in cd and cd[t] <= now]
+            raise Violation(
+                "on %s SelectActive (behind ClosePositionsAfterDates) left %s, expected %s; matured and still selected: %s (close dates %s; positions before today's trades %s)" % (now, sorted(selected), exp, late, {t: str(d.date()) for t, d in cd.items()}, pos),
+                signature="c14:active-run:selected",
+            )
+    for t, d in cd.items():
+        first = [i for i, x in enumerate(ds) if x >= d]
+        if first and first[0] > 0:
+            # was it flat on the first run at or after its close date?
+            for now, selected, pos in seen:
+                if now == ds[first[0]] and abs(pos.get(t, 0.0)) == 0:
+                    flat_at_maturity = True
+    return {"nontrivial": kept > 0 and dropped > 0, "labels": ["SelectActiveRun"] + (["flat_at_maturity_wanted_later"] if flat_at_maturity and dropped else [])}
+
+
 SUBS = {"select": case_select}
 STRATS = {"select": case_spec}
+SUBS["SelectActiveRun"] = case_active_run
+STRATS["SelectActiveRun"] = active_run_spec
 for _a in ALGOS:
     STRATS[_a] = (lambda a: (lambda: case_spec(algo=a)))(_a)
     SUBS[_a] = case_select
@@ -500,3 +598,4 @@ def shard(ctx):
     per = ctx.n(13000, 260000) // len(ALGOS) + 1
     for a in ALGOS:
         run_sub(ctx, a, case_spec(algo=a), lambda s: case_select(ctx, s), per)
+    run_sub(ctx, "SelectActiveRun", active_run_spec(), lambda s: case_active_run(ctx, s), ctx.n(800, 12000))
